@@ -83,7 +83,10 @@ class Factory(object):
         self._all_interpolators: Dict[str, Type[Interpolator]]
         self._all_optimizers: Dict[str, Type[Optimizer]]
         self._generic_solvers: Dict[str, Tuple[List[str], List[Logic]]] = {}
-        self.preferences = dict(DEFAULT_PREFERENCES)
+        # Each factory has preference lists of its own: add_generic_solver
+        # extends them
+        self.preferences = dict((k, list(v))
+                                for k, v in DEFAULT_PREFERENCES.items())
         if preferences is not None:
             self.preferences.update(preferences)
         #
